@@ -710,7 +710,12 @@ impl C09 {
         if asserta_hazard {
             out_stats_asserta = true;
         }
-        *hazard = if var_hazard { 3 } else if model.index_hazard { 1 } else { 0 };
+        // (hazard 1, "a writer touches the bucket an open indexed cursor walks", was keyed apart
+        // until cursors of indexed calls were made position-independent in /repo)
+        if model.index_hazard {
+            out.bump("histories_modifying_the_bucket_of_an_open_indexed_cursor", 1);
+        }
+        *hazard = if var_hazard { 3 } else { 0 };
         let want_db = model.db_text();
         if out_stats_dup {
             out.bump("histories_asserting_into_a_bucket_after_a_retraction", 1);
